@@ -176,7 +176,27 @@ def nonnull_facts(func, node):
         nt = null_test(c)
         if nt is not None and nt[1] == t:
             out.add(path(nt[0]))
+    # inside a lambda: a plain local/parameter that is never re-assigned (or reset/swapped) in the enclosing function has, whether captured by
+    # value or by reference, the nullness it had where the lambda expression was created
+    lam = func.enclosing_lambda(node)
+    if lam is not None:
+        outer = nonnull_facts(func, lam) or set()
+        for pth in outer:
+            if pth and pth.replace('_', 'a').isalnum() and not _reassigned(func, pth):
+                out.add(pth)
     return out
+
+
+def _reassigned(func, name):
+    for x in func.walk():
+        c = x.get('c', [])
+        if not c or c[0].get('k') != 'Ref' or c[0].get('n') != name:
+            continue
+        if (x.get('k') == 'Bin' and x.get('op') == '=') or x.get('k') == 'CAssign' or (x.get('k') == 'Call' and x.get('opc') in ('=',)):
+            return True
+        if x.get('k') == 'Call' and x.get('mc') and x.get('fn') in ('reset', 'swap'):
+            return True
+    return False
 
 
 def returns(func):
